@@ -66,7 +66,7 @@ def run(tier, seed):
     shared_tail, shared_qs = rb(32), rb(34)
     for ci, c in enumerate(cases):
         tag = c.get("tag", 0x8017)
-        magic = rb(4) if rng.random() < 0.5 else b"\xffTCG"
+        magic = (rb(4), b"\xffTCG", b"GCT\xff", b"TCG\xff", b"\xff\xff\xff\xff", b"\x00\x00\x00\x00", b"\x47\x43\x54\xff", b"\xffTCG", b"\xfeTCG", b"\xffTCH")[ci % 10]
         qs, ed, qn = rb(c.get("qs", 34)), rb(c.get("ed", 32)), rb(c.get("qn", 34))
         name_alg = c.get("name_alg", 0x000B)
         name = struct.pack(">H", name_alg) + rb(min(c.get("name_tail", 32), 65533))
@@ -117,6 +117,17 @@ def run(tier, seed):
                 pcases.append(dict(kind="ECC", ap=apl, unique=lx, uy=ly))
         for lu in (0, 1, 2, 3, 5):
             pcases.append(dict(kind="RSA", ap=apl, unique=lu))
+    # moduli with arithmetic structure (the decoder decodes; it does not judge keys): ROCA-shaped (65537^a mod the primorial of 3..167, plus a multiple of it), all ones,
+    # powers of two and their neighbours, an even number, a perfect square, a product of small primes
+    small_primes = [p_ for p_ in range(3, 168, 2) if all(p_ % q for q in range(3, int(p_ ** 0.5) + 1, 2))]
+    Mp = 1
+    for p_ in small_primes:
+        Mp *= p_
+    special = [((rng.getrandbits(2048 - Mp.bit_length() - 1) | (1 << (2046 - Mp.bit_length()))) * Mp + pow(65537, a_, Mp)) for a_ in (1, 12345, 2 ** 61 - 1, 987654321987654321)]
+    special += [2 ** 2048 - 1, 2 ** 2047, 2 ** 2047 + 1, 2 ** 2047 - 1, (2 ** 1024 - 159) ** 2, 2 * (2 ** 2046 + 7), Mp ** 2 if Mp.bit_length() * 2 <= 2048 else Mp, 65537 ** 128, 3 ** 1292]
+    for n_ in special:
+        ub_ = n_.to_bytes(256, "big") if n_.bit_length() <= 2048 else n_.to_bytes((n_.bit_length() + 7) // 8, "big")
+        pcases.append(dict(kind="RSA", unique_bytes=ub_))
     for ub in (b"\x00" + rb(255), b"\x00\x00" + rb(254), bytes(256), b"\x00", b"\x00\x01", bytes(128) + rb(128)):
         pcases.append(dict(kind="RSA", unique_bytes=ub))
         pcases.append(dict(kind="ECC", unique_bytes=ub[:32] if len(ub) >= 32 else ub, uy_bytes=b"\x00" + rb(31)))
